@@ -154,8 +154,8 @@ def run(ck, tier):
     ck.extra["resolved_call_edges"] = g.n_edges
     ck.extra["trait_dispatched_calls"] = sum(len(v) for v in g.tcalls.values())
     ck.extra["exhaustive"] = True
-    ck.floor("R-C10-net", "compilation units with facts", len(units), 200)
-    ck.floor("R-C10-net", "functions in call graph", len(g.funcs), 60000)
+    ck.floor("R-C10-net", "compilation units with facts", len(units), 150)
+    ck.floor("R-C10-net", "functions in call graph", len(g.funcs), 40000)
     for f in g.funcs:
         if WS.match(f):
             ck.saw(f)
